@@ -780,11 +780,6 @@ theorem runRetry_ok (cfg : Cfg) (hrs : 0 < cfg.recvsize) :
     simp only
     rw [← h2]
 
-/-- the bytes handed to the caller by a history of attempts -/
-def handedOver : List Op → List (Res × St) → Bytes
-  | op :: ops, (r, _) :: recs => consumed op r ++ handedOver ops recs
-  | _, _ => []
-
 theorem runAttempts_conserves (cfg : Cfg) (hrs : 0 < cfg.recvsize) :
     ∀ (ops : List Op) (st : St),
       handedOver ops (runAttempts cfg ops st).1 ++ (runAttempts cfg ops st).2.view = st.view := by
